@@ -104,20 +104,25 @@ CLAIMED = {
         "package-level state are not modelled.",
    note="Lean kernel + propext/Quot.sound; map order is quantified in the model, sampled on the implementation.", technique=T, design="§4 C12"),
  "C01": dict(
-   text="Partial. Lean proof of the print->parse round trip for two fragments: M-Core (opaque type definitions + integer globals: all names, widths, values, both literal "
+   text="Partial. Lean proof of the print->parse round trip for three fragments: M-Core-3 (FUNCTION DEFINITIONS: any number of parameters and named / numbered blocks, 30 instruction and "
+        "terminator kinds — the integer binary and bitwise operations, icmp, load, store, select, ret, br, conditional br, unreachable — over local values incl. forward references "
+        "and nested constants; generic row-table reader proved to invert the printer, translation = asm/local.go: numbering, duplicates, undefined uses, label kinds, operand "
+        "retyping), M-Core (opaque type definitions + integer globals: all names, widths, values, both literal "
         "notations) and M-Core-2 (identified struct type definitions with bodies of arbitrarily nested types; global variables / constants of ANY type initialised by integers "
         "of any width, zeroinitializer, null, undef or arbitrarily nested struct / packed struct / array / vector constants), built on the leaf theorems (C09, C11 decode/inject, "
         "C16 type reader, C20) and on byte-level readers of types and constants proved to invert the printers for every type and constant. Model text is compared byte for byte "
         "with the implementation; the readers are compared with the real parser on printed and mutated texts. The rest of the grammar is tied by correspondence: generated "
-        "typed modules must be byte-exact fixpoints and closed graphs, corpus and shuffled modules stable, every typed result used at LLVM's type.",
+        "typed modules must be byte-exact fixpoints and closed graphs, corpus and shuffled modules stable, every typed result used at LLVM's type; LLVM 14 itself (llvm-as | llvm-dis) must "
+        "read input and printed output as the same module.",
    note="Lean kernel + propext/Quot.sound/Classical.choice; M-Core hand-written; llir/ll lexer+parser trusted to deliver the tokens; outside M-Core no theorem.", technique=T, design="§4 C01"),
  "C02": dict(
-   text="Partial. Lean proof for M-Core and M-Core-2 (struct type definitions with bodies, globals of any type, nested aggregate constants) that one parse+print step is a normal "
+   text="Partial. Lean proof for M-Core, M-Core-2 (struct type definitions with bodies, globals of any type, nested aggregate constants) and M-Core-3 (function definitions) that one parse+print step is a normal "
         "form (canon idempotent, second parse identical, text token-identical); correspondence: y = print(parse(x)) accepted and print(parse(y)) == y on generated modules in "
         "canonical and non-canonical spellings (incl. split / repeated attribute groups) and on the corpus.",
    note="as C01.", technique=T, design="§4 C02"),
  "C03": dict(
-   text="Partial. Lean proof that constructed M-Core and M-Core-2 modules (struct type definitions, globals with nested aggregate constants built through the constant constructors) "
+   text="Partial. Lean proof that constructed M-Core, M-Core-2 (struct type definitions, globals with nested aggregate constants built through the constant constructors) and M-Core-3 "
+        "(function definitions built instruction by instruction) values "
         "print to text the parser maps back to exactly what was constructed, that (C06) constructors compute LLVM's type on every well-typed operand tuple, and that the type "
         "spelled at call / invoke / callbr sites is read back by LLVM as the callee's signature; correspondence on construction programs (API-built modules, every instruction "
         "constructor, call sites on generated signatures, constructed vs parsed numbering).",
